@@ -510,8 +510,11 @@ Fixpoint eval (fuel : nat) (P : prog) (r : env) (d : nat) (e : exp) (st : state)
         match eval f P r d e1 st with
         | Err e => Err e
         | Ok (VRes l, st1) => Ok (VInt 0, mkSt (cells st1) (sto st1) (evs st1) (l :: dead st1))
+        | Ok (VSome (VRes l), st1) => Ok (VInt 0, mkSt (cells st1) (sto st1) (evs st1) (l :: dead st1))
+        | Ok (VNil, st1) => Ok (VInt 0, st1)
         | Ok _ => Err Internal
         end
+    | ENilV => Ok (VNil, st)
     end
   end
 with eval_list (fuel : nat) (P : prog) (r : env) (d : nat) (es : exps) (st : state) {struct fuel} : res (list value * state) :=
@@ -593,6 +596,44 @@ with exec (fuel : nat) (P : prog) (r : env) (d : nat) (s : stmt) (st : state) {s
         | Err e => Err e
         | Ok (VInt z, st1) => Ok (ONormal, r, add_event st1 false z)
         | Ok _ => Err Internal
+        end
+    | SLet2 _ x T t e =>
+        (* the target is evaluated and its value moved into x; the second value is evaluated; the target is
+           evaluated again and the second value moved into it *)
+        match eval_lv st r t with
+        | Err e => Err e
+        | Ok (lp0, _) =>
+          match read_lv st lp0 with
+          | Err e => Err e
+          | Ok old =>
+            match eval f P r d e st with
+            | Err e => Err e
+            | Ok (v, st1) =>
+              match eval_lv st1 r t with
+              | Err e => Err e
+              | Ok (lp, _) =>
+                match write st1 lp v with
+                | Err e => Err e
+                | Ok st2 =>
+                  match bind_var st2 r d x T old with
+                  | Ok (r1, st3) => Ok (ONormal, r1, st3)
+                  | Err e => Err e
+                  end
+                end
+              end
+            end
+          end
+        end
+    | SRemove _ t =>
+        match eval_lv st r t with
+        | Err e => Err e
+        | Ok (lp, _) =>
+          match read_lv st lp with
+          | Ok (VRes l) =>
+              match write st (l, [PF 3%nat]) (VInt 0) with Ok st1 => Ok (ONormal, r, st1) | Err e => Err e end
+          | Ok _ => Err Internal
+          | Err e => Err e
+          end
         end
     end
   end
